@@ -313,8 +313,12 @@ type fctx struct {
 }
 
 func isSliceT(t types.Type) bool {
-	_, ok := t.Underlying().(*types.Slice)
-	return ok
+	if _, ok := t.Underlying().(*types.Slice); ok {
+		return true
+	}
+	// strings (and named string types: Symbol, String) have a length that the same comparisons bound
+	b, ok := t.Underlying().(*types.Basic)
+	return ok && b.Info()&types.IsString != 0
 }
 
 // IntConst folds v to an integer constant if possible.
@@ -607,6 +611,12 @@ func pathKey(v ssa.Value, depth int) string {
 	case *ssa.UnOp:
 		if x.Op != token.MUL {
 			return ""
+		}
+		if _, isElem := x.X.(*ssa.IndexAddr); isElem && depth > 0 {
+			// a pointer loaded from a slice element (`for _, da := range fd.Args`): the SSA value is fixed
+			if _, ok := v.Type().Underlying().(*types.Pointer); ok {
+				return fmt.Sprintf("V%p", v)
+			}
 		}
 		b := pathKey(x.X, depth+1)
 		if b == "" {
@@ -1648,13 +1658,13 @@ func (r *Result) lbFromFacts(v ssa.Value, facts map[core.EdgeFact]bool, extra *c
 		op := bo.Op
 		var c int
 		switch {
-		case bo.X == v:
+		case r.sameInt(bo.X, v):
 			k, ok := r.fc.IntConst(bo.Y)
 			if !ok {
 				return
 			}
 			c = k
-		case bo.Y == v:
+		case r.sameInt(bo.Y, v):
 			k, ok := r.fc.IntConst(bo.X)
 			if !ok {
 				return
@@ -1687,6 +1697,27 @@ func (r *Result) lbFromFacts(v ssa.Value, facts map[core.EdgeFact]bool, extra *c
 		try(*extra)
 	}
 	return best, found
+}
+
+// sameInt: the two are one SSA value, or two loads of one field path that the function does not assign
+// between them (go/ssa has no CSE: `if 0 < s.pos { buf[s.pos-1] }` loads s.pos twice).
+func (r *Result) sameInt(a, b ssa.Value) bool {
+	if a == b {
+		return true
+	}
+	ua, ok1 := a.(*ssa.UnOp)
+	ub, ok2 := b.(*ssa.UnOp)
+	if !ok1 || !ok2 || ua.Op != token.MUL || ub.Op != token.MUL {
+		return false
+	}
+	if _, ok := ua.X.(*ssa.FieldAddr); !ok {
+		return false
+	}
+	if _, ok := ub.X.(*ssa.FieldAddr); !ok {
+		return false
+	}
+	ca, cb := r.fc.canonicalFieldLoad(ua), r.fc.canonicalFieldLoad(ub)
+	return ca != nil && ca == cb
 }
 
 // IntLBAt returns a lower bound of int value v that holds whenever control is at the start of
@@ -1777,6 +1808,22 @@ func (r *Result) applyCond(st State, cond ssa.Value, branch bool) {
 	case *ssa.BinOp:
 		op := x.Op
 		lhs, rhs := x.X, x.Y
+		// s == "const" (or the false edge of s != "const"): len(s) is the constant's length. A switch on a
+		// string compiles to a chain of these.
+		if (op == token.EQL && branch) || (op == token.NEQ && !branch) {
+			for _, pair := range [][2]ssa.Value{{lhs, rhs}, {rhs, lhs}} {
+				k, ok := pair[1].(*ssa.Const)
+				if !ok || k.Value == nil || k.Value.Kind() != constant.String {
+					continue
+				}
+				if _, isC := pair[0].(*ssa.Const); isC {
+					continue
+				}
+				ref := r.fc.ResolveSlice(pair[0])
+				r.raise(st, ref.Root, len(constant.StringVal(k.Value))+ref.Off)
+				return
+			}
+		}
 		cR, okR := r.fc.IntConst(rhs)
 		cL, okL := r.fc.IntConst(lhs)
 		var ref Ref
